@@ -41,6 +41,7 @@ READY = True
 
 FIXED_SIZES = [0, 1, 2, 10, 255, 4096, 65536]
 MAX_ITER = 400
+MAX_IDLE = 12  # iterations without a byte written before the response is declared stuck
 
 
 def content(size):
@@ -139,6 +140,21 @@ def gen_range(rng, size):
     return rng.choice(GARBAGE)
 
 
+def gen_buffer_edge(rng, size):
+    """2-4 closed ranges whose lengths (+ ~105 bytes of separator each) add up to about 64 KiB, the
+    producers' batch size (StaticProducer.bufferSize): part ends land on either side of a batch end."""
+    n = rng.randint(2, 4)
+    target = max(n, 65536 + rng.randint(-450, 250) - 105 * n)
+    cuts = sorted(rng.sample(range(1, target), n - 1))
+    lens = [b - a for a, b in zip([0] + cuts, cuts + [target])]
+    out = []
+    for l in lens:
+        l = min(l, size)
+        a = rng.randrange(0, size - l + 1)
+        out.append(b"%d-%d" % (a, a + l - 1))
+    return b"bytes=" + b",".join(out)
+
+
 # ------------------------------------------------------------------------------------ harness
 class Harness:
     def __init__(self, ctx):
@@ -188,12 +204,16 @@ class Harness:
         escaped = None
         try:
             ch.dataReceived(req)
-            n = 0
-            while not t.disconnecting and n < MAX_ITER:
+            n = idle = 0
+            seen = len(t.written)
+            while not t.disconnecting and n < MAX_ITER and idle < MAX_IDLE:
                 self.reactor.iterate(0)
                 if t.producer is not None and t.producer_paused:
                     t.sim_resume_producer()
                 n += 1
+                # a producer that spins without writing would cost a cooperator time slice per iteration
+                idle = idle + 1 if len(t.written) == seen else 0
+                seen = len(t.written)
         except Exception as e:  # nothing may escape dataReceived
             escaped = "%s: %s" % (type(e).__name__, e)
         closed = t.disconnecting
@@ -413,6 +433,10 @@ def run(ctx):
             method = b"HEAD" if rng.random() < 0.1 else b"GET"
             version = b"HTTP/1.0" if rng.random() < 0.1 else b"HTTP/1.1"
             value = gen_range(rng, size)
+            if rng.random() < 0.03:
+                size = 65536
+                value = gen_buffer_edge(rng, size)
+                ctx.count("buffer_edge_cases")
             run_case(ctx, h, size, method, version, value, sample=i < 4 * ctx.nshards)
     finally:
         h.close()
